@@ -88,7 +88,7 @@ impl Scenario for EcdsaNet {
             real: &["bsv::ECDSA::{sign_with_deterministic_k, sign_with_random_k (OsRng behind the cfg(bsv_verif) hook), sign_with_k, sign_digest_with_deterministic_k, verify_digest, verify_hashbuf}", "bsv::PrivateKey::sign_message", "bsv::Signature::{verify_message, r, s}", "bsv::PublicKey::{verify_message, is_valid_message}", "bsv::ECDH::derive_shared_key"],
             stub: &["RefVerifier: textbook ECDSA verification over k256 group arithmetic", "RefSigner: RFC 6979 HMAC-SHA256 (and the section 3.6 additional-data variant over SHA-256 or double SHA-256) nonce generation + textbook signing + low-S, written against sha2 only", "entropy source = script installed through the hook", "S7 (bit-for-bit RFC 6979 equality) and the reference half of ECDH are reference-model oracles without a simulator dimension of their own; they ride in this world because it already exists"],
             assumptions: &["reversed-nonce mode is modelled as RFC 6979 with the byte-reversed digest as h1; the message scalar is always the big-endian digest", "k256's scalar/point arithmetic is trusted by both sides"],
-            required_probes: &["sign_det", "sign_det_reversed", "sign_random_k", "sign_with_k", "sign_digest", "sign_message", "random_k_equals_reference", "entropy_isolation_checked", "mispaired_msg", "mispaired_hash", "mispaired_key", "replayed", "ecdh", "key_near_n", "uncompressed_key", "sign_raw_digest", "raw_digest_ge_n", "same_message_other_key", "verify_with_other_key_encoding", "solved_key_for_boundary_s"],
+            required_probes: &["sign_det", "sign_det_reversed", "sign_random_k", "sign_with_k", "sign_digest", "sign_message", "entropy_isolation_checked", "mispaired_msg", "mispaired_hash", "mispaired_key", "replayed", "ecdh", "key_near_n", "uncompressed_key", "sign_raw_digest", "raw_digest_ge_n", "same_message_other_key", "verify_with_other_key_encoding", "solved_key_for_boundary_s"],
             quick_runs: 20000,
             thorough_runs: 1500000,
             rlimit_as: 4 << 30,
@@ -309,18 +309,13 @@ impl Scenario for EcdsaNet {
                         "digest" => "sign_digest",
                         _ => "sign_message",
                     });
-                    // S5 / S4: entropy accounting
+                    // entropy accounting is recorded, not judged: the statement does not say how many bytes the randomised
+                    // signer draws, nor that a deterministic one must not touch the source (only that it is reproducible)
                     if randomised {
                         ctx.fault(jstr(&req, "ekind"));
-                        if drawn.len() != 32 {
-                            if ctx.violate("entropy", format!("entropy-draw-count:{}", entry), format!("{} drew {} bytes of OS entropy (expected exactly 32)", entry, drawn.len())) {
-                                return;
-                            }
-                        }
+                        ctx.probe(if drawn.len() == 32 { "random_k_drew_32_bytes" } else { "random_k_drew_other_than_32_bytes" });
                     } else if !drawn.is_empty() {
-                        if ctx.violate("entropy", format!("entropy-consumed-by-deterministic:{}", entry), format!("deterministic entry point {} consumed {} bytes of OS entropy", entry, drawn.len())) {
-                            return;
-                        }
+                        ctx.probe("deterministic_signer_touched_entropy");
                     }
                     // S3 low-S
                     if rf::is_high(&s) {
@@ -365,7 +360,6 @@ impl Scenario for EcdsaNet {
                             if drawn.len() == 32 {
                                 let hsrc = if entry == "random_k_rev" { digest.clone() } else { rev(&digest) };
                                 let h1 = rf::scalar_bytes(&rf::scalar_reduced(&hsrc));
-                                ctx.probe("random_k_equals_reference");
                                 rf::ecdsa_sign(&x, &digest, &rf::rfc6979_k(&x, &h1, &drawn, &hash))
                             } else {
                                 None
@@ -374,7 +368,11 @@ impl Scenario for EcdsaNet {
                         _ => None,
                     };
                     if let Some((wr, ws)) = want {
-                        if wr != r || ws != s {
+                        if randomised {
+                            // how the randomised signer turns its draw into a nonce is an implementation choice; on the shipped
+                            // code it is RFC 6979 with the draw as additional data, which is recorded as a probe only
+                            ctx.probe(if wr == r && ws == s { "random_k_matches_rfc6979_additional_data_variant" } else { "random_k_differs_from_rfc6979_additional_data_variant" });
+                        } else if wr != r || ws != s {
                             if ctx.violate("mismatch", format!("signature-differs-from-reference:{} {}", entry, hash), format!("(r,s) from {} differs from the independent RFC 6979 / textbook computation: r {} vs {}, s {} vs {}", entry, hx(&r), hx(&wr), hx(&s), hx(&ws))) {
                                 return;
                             }
